@@ -1556,7 +1556,43 @@ impl LsmTree {
         paths: Vec<PathBuf>,
         input_setsum: Setsum,
         discard_setsum: Setsum,
+        mani_edit: Edit,
+    ) -> Result<(), SError> {
+        // NOTE:  An output can carry the setsum of an sst that is still in sst/ only because a
+        // reader holds an older version.  Were that reader to let go between the hard_link below
+        // and install_version, the file would move to the trash although the manifest lists it.
+        // So every output takes a reference before it is linked, and gives it back at the end.
+        let mut pinned = vec![];
+        let ret = self.compaction_finish_pinned(
+            compaction,
+            compaction_dir,
+            paths,
+            input_setsum,
+            discard_setsum,
+            mani_edit,
+            &mut pinned,
+        );
+        for setsum in pinned.into_iter() {
+            if ret.is_ok() {
+                self.release_sst(setsum);
+            } else {
+                // SAFETY(rescrv):  This will just leave an orphan.
+                self.references.dec(setsum);
+            }
+        }
+        ret
+    }
+
+    #[allow(clippy::too_many_arguments)]
+    fn compaction_finish_pinned(
+        &self,
+        compaction: Compaction,
+        compaction_dir: PathBuf,
+        paths: Vec<PathBuf>,
+        input_setsum: Setsum,
+        discard_setsum: Setsum,
         mut mani_edit: Edit,
+        pinned: &mut Vec<Setsum>,
     ) -> Result<(), SError> {
         let mut outputs = vec![];
         let mut output_setsum = Setsum::default();
@@ -1570,7 +1606,11 @@ impl LsmTree {
             mani_edit.add(&setsum.hexdigest())?;
             let new_path = SST_FILE(&self.root, setsum);
             COMPACTION_LINK.click();
-            match hard_link(path, &new_path) {
+            pinned.push(setsum);
+            match self
+                .references
+                .inc_and(setsum, || hard_link(path, &new_path))
+            {
                 Ok(_) => {}
                 Err(err) if err.kind() == ErrorKind::AlreadyExists => {}
                 err @ Err(_) => {
@@ -1745,14 +1785,20 @@ impl LsmTree {
             return;
         }
         for setsum in version.setsums() {
-            if self.references.dec(setsum) {
-                let sst_path = SST_FILE(&self.root, setsum);
-                let trash_path = TRASH_SST(&self.root, setsum);
-                // SAFETY(rescrv):  This will just leave an orphan.
-                // The verifier will pick up on there being orphans.
-                let _ = rename(sst_path, trash_path);
-            }
+            self.release_sst(setsum);
         }
+    }
+
+    /// Give back one reference to an sst.  The last one to do so moves the file to the trash,
+    /// before anyone can take a new reference to that setsum.
+    fn release_sst(&self, setsum: Setsum) {
+        self.references.dec_and(setsum, || {
+            let sst_path = SST_FILE(&self.root, setsum);
+            let trash_path = TRASH_SST(&self.root, setsum);
+            // SAFETY(rescrv):  This will just leave an orphan.
+            // The verifier will pick up on there being orphans.
+            let _ = rename(sst_path, trash_path);
+        });
     }
 
     pub fn get(&self, key: &[u8]) -> Result<Option<Vec<u8>>, SError> {
